@@ -106,6 +106,18 @@ def slabs (rot90 : Bool) (w dx dy : K) : K × K × K := if rot90 then slabs90 w 
 
 @[reducible] def inHex [LE K] (rot90 : Bool) (w a cx cy px py : K) : Prop := inSlabs a (slabs rot90 w (px - cx) (py - cy))
 
+/-- vertices `regular_polygon(6, ρ, center, rotation = 90)` hands to qhull: `ρ (sin, cos)(k·60° + 90°) + centre` -/
+def hexVertices90 (w radius x0 y0 : K) : List (K × K) :=
+  [(radius * 1 + x0, radius * 0 + y0), (radius * (1 / 2) + x0, radius * (-(w / 2)) + y0),
+   (radius * (-(1 / 2)) + x0, radius * (-(w / 2)) + y0), (radius * (-1) + x0, radius * 0 + y0),
+   (radius * (-(1 / 2)) + x0, radius * (w / 2) + y0), (radius * (1 / 2) + x0, radius * (w / 2) + y0)]
+
+/-- the same for `rotation = 0` -/
+def hexVertices0 (w radius x0 y0 : K) : List (K × K) :=
+  [(radius * 0 + x0, radius * 1 + y0), (radius * (w / 2) + x0, radius * (1 / 2) + y0),
+   (radius * (w / 2) + x0, radius * (-(1 / 2)) + y0), (radius * 0 + x0, radius * (-1) + y0),
+   (radius * (-(w / 2)) + x0, radius * (-(1 / 2)) + y0), (radius * (-(w / 2)) + x0, radius * (1 / 2) + y0)]
+
 /-! ## composition of per-segment OPD -/
 
 /-- one segment as the composer sees it: window `[ylo,yhi) × [xlo,xhi)`, local mask and local tile
